@@ -25,7 +25,8 @@ import (
 	"verif/vs/drv"
 )
 
-const (
+// the scanner's settings (section (v) changes them)
+var (
 	c09vDialT = 1000 * time.Millisecond
 	c09vDataT = 1000 * time.Millisecond
 )
@@ -439,7 +440,7 @@ func verifC09Virt(c *drv.Ctx) {
 		bound = 3
 	}
 	c.R.Rule = fmt.Sprintf("the real socks5.Scanner.Scan on the virtual TCP network (zzvenv/vnet.go; dial timeout %v, data timeout %v): every scripted peer behaviour = connect outcome {accept at once, accept after 700 ms, accept after the dial timeout, refuse, refuse late, SYN dropped, nothing listening} x {peer reads the greeting first, peer answers unasked} x reply {6 two-byte replies in one segment, 05|00 and 05|01 split with gaps 0/400 ms/1.5 s, late by 600 ms/1.5 s, slow split, one byte then close/reset/stall, nothing then close/reset/stall, 0500/0501 + 300 bytes} x after the reply {stay open, close, reset, junk}; "+
-		"(i) each alone under every schedule with deviation bound %d and the cancel event at every choice point; (ii) each as the second probe of a scanner whose first probe met a real proxy (state carried between probes); (iii) pairs of concurrent probes on one scanner, bound %d; (iv) every accepting behaviour once more with a data timeout of 0 (a deadline already passed: the probe ends the instant the connection is there). Oracle: timeline model, exact on the virtual clock; "+
+		"(i) each alone under every schedule with deviation bound %d and the cancel event at every choice point; (ii) each as the second probe of a scanner whose first probe met a real proxy (state carried between probes); (iii) pairs of concurrent probes on one scanner, bound %d; (iv) every accepting behaviour once more with a data timeout of 0 (a deadline already passed: the probe ends the instant the connection is there); (v) every behaviour with dial and data timeouts of a million hours each (sums of them overflow a 64-bit duration), cancel event anywhere, bound 1. Oracle: timeline model, exact on the virtual clock; "+
 		"non-trivial = executions in which a connection was established", c09vDialT, c09vDataT, bound, bound)
 	idx := 0
 	positive := &scns[0] // accept+0s/reads-greeting/reply=0500/stay-open
@@ -533,5 +534,14 @@ func verifC09Virt(c *drv.Ctx) {
 		c.Explore(name, r, func(v vs.Violation) string { return name })
 		c.Nontrivial(1)
 	}
+	// (v) the other boundary: timeouts so large that sums of them leave the range of a duration (a million
+	// hours each; the probe's documented worst case, connect + three data timeouts, no longer fits in 64
+	// bits). The model is the same with the larger constants; cancellation anywhere
+	saveDial, saveData := c09vDialT, c09vDataT
+	c09vDialT, c09vDataT = 1000000*time.Hour, 1000000*time.Hour
+	for i := range scns {
+		runOne("million-hour timeouts: "+scns[i].name, []*c09vScn{&scns[i]}, nil, true, 1)
+	}
+	c09vDialT, c09vDataT = saveDial, saveData
 	c.Set("scenarios", len(scns))
 }
